@@ -450,7 +450,10 @@ func (m *chainModel) buildOp(op c29Op, tip *node) (*types.Header, string) {
 	return h, label + tag
 }
 
-func runC29(ctx *ev.Ctx, c c29Case) {
+func runC29(ctx *ev.Ctx, c c29Case) { runC29With(ctx, c, nil) }
+
+// runC29With: hook != nil makes the run a transaction source for another unit (no C29 evidence tables).
+func runC29With(ctx *ev.Ctx, c c29Case, hook txHook) {
 	ad := adapterOf(c.Router)
 	if ad == nil {
 		panic("harness: unknown router " + c.Router)
@@ -461,6 +464,7 @@ func runC29(ctx *ev.Ctx, c c29Case) {
 		gnum = 1
 	}
 	e := newEnv(ad, 1000+ad.router, c.EvmID, c.Period, 1, crypto.Keccak256([]byte("ccmc"))[:20], c.Epoch)
+	e.hook = hook
 	defer e.w.Store.Close() // releases the store's background goroutines and buffers
 	var m *chainModel
 	var err error
@@ -624,11 +628,14 @@ func runC29(ctx *ev.Ctx, c c29Case) {
 		head = nh
 	}
 
-	if stats.epochSealed > 0 && stats.mutRejected > 0 {
+	if stats.epochSealed > 0 && stats.mutRejected > 0 && hook == nil {
 		ctx.NonTrivial()
 	}
 	if stats.epochSealed > 0 {
 		ctx.Label("set-change-exercised:" + ad.name)
+	}
+	if hook != nil {
+		return
 	}
 	c29Mu.Lock()
 	c29Cases[ad.name]++
